@@ -1339,8 +1339,8 @@ func (t *Tree) removeSingleNodesRecur(current, previous *Node, e *Edge) error {
 					return errors.New("Problem in edge orientation")
 				}
 				previous.addChild(child, child.br[idx])
-				if child.br[idx].Length() != NIL_LENGTH && length != NIL_LENGTH {
-					child.br[idx].SetLength(child.br[idx].Length() + length)
+				if child.br[idx].Length() != NIL_LENGTH || length != NIL_LENGTH {
+					child.br[idx].SetLength(math.Max(0, child.br[idx].Length()) + math.Max(0, length))
 				}
 			}
 		}
